@@ -85,6 +85,8 @@ theorem svcT_cancelTimer_other (s : Stack) (own : Cb → Bool) (t : Option Nat) 
         simp [this]
 @[simp] theorem svcT_cancelTimer_sub (s : Stack) (t : Option Nat) : svcT (s.cancelTimer isSubExpiry t) = svcT s :=
   svcT_cancelTimer_other s _ t (fun cb h => by cases cb <;> simp_all [isSubExpiry, isSvcExpiry])
+@[simp] theorem svcT_cancelTimer_subFor (s : Stack) (i : Nat) (a : Addr) (k : SubKey) (t : Option Nat) : svcT (s.cancelTimer (isSubExpiryFor i a k) t) = svcT s :=
+  svcT_cancelTimer_other s _ t (fun cb h => by cases cb <;> simp_all [isSubExpiryFor, isSvcExpiry])
 @[simp] theorem svcT_cancelTimer_sleep (s : Stack) (t : Option Nat) : svcT (s.cancelTimer isSleep t) = svcT s :=
   svcT_cancelTimer_other s _ t (fun cb h => by cases cb <;> simp_all [isSleep, isSvcExpiry])
 
